@@ -582,6 +582,11 @@ def _lt(st, a, b):
         return (a.v < b.v) if a.signed else z3.ULT(a.v, b.v)
     if isinstance(a, Flt):
         raise Unsupported('max/min over floats (not Ord)')
+    if isinstance(a, Str) or isinstance(b, Str):
+        # str's Ord is bytewise lexicographic: decidable here only for literals
+        if isinstance(a, Str) and isinstance(b, Str) and a.text is not None and b.text is not None and a.parts is None and b.parts is None:
+            return z3.BoolVal(a.text.encode() < b.text.encode())
+        raise Unsupported('max/min over strings that are not literals')
     return key_lt(st, a, b)
 
 
